@@ -1,7 +1,7 @@
 #!/usr/bin/env python3
 """show.py [replay.json ...]: compact view of failed obligations and their counterexample values."""
 import json, sys, glob, os
-fs = sys.argv[1:] or sorted(glob.glob(os.path.join(os.path.dirname(os.path.dirname(os.path.abspath(__file__))), "replays", "*.json")))
+fs = [a for a in sys.argv[1:] if a != "-v"] or sorted(glob.glob(os.path.join(os.path.dirname(os.path.dirname(os.path.abspath(__file__))), "replays", "*.json")))
 for f in fs:
     r = json.load(open(f))
     print("==", r["job"], r["obligation"], "|", r["description"], "|", r["source"])
@@ -13,4 +13,4 @@ for f in fs:
         if k.startswith("__") or k.endswith("_wrapper") or k.endswith("_ctx") or k in ("elem","size","may_fail","write_set","set","idx","ptr","tmp_cc","tmp_if_expr","allow_allocate","allow_deallocate","contract_assigns_size","contract_frees_size","tmp_assign") or "return_value___CPROVER" in k:
             continue
         out.append("%s=%s" % (k, v["value"]))
-    print("   " + " ".join(out)[:1800])
+    if "-v" in sys.argv: print("   " + " ".join(out)[:1800])
